@@ -182,7 +182,7 @@ def run_instance(cls, k, values, rng, ctx, algs=None, full_grid=False):
     n = len(values)
     vectors = O.sum_vectors(values, k)
     optcache = {}
-    base = {"kind": "partition", "k": k, "values": values, "cls": cls, "pres": rng.choice(["list", "list", "array", "dict_str", "names_int"]),
+    base = {"kind": "partition", "k": k, "values": values, "cls": cls, "pres": rng.choice(["list", "list", "array", "dict_str", "names_int"] + (["array_u"] if sum(values) < 2 ** 31 else [])),
             "pres_seed": rng.randrange(1 << 30)}
     big = max(values) > 10 ** 6
     todo = []
